@@ -236,7 +236,8 @@ def scope_inventory(fnode) -> Dict[str, List[str]]:
 def shape(fnode) -> dict:
     from . import normalise2 as N2
     return {"locals": local_names(fnode), "eqs": eq_texts(fnode), "ifs": if_texts(fnode), "scopes": scope_inventory(fnode),
-            "guards": N2.guard_forms(fnode), "ifs_noelse": N2.noelse_texts(fnode), "ifexps": N2.ifexp_texts(fnode)}
+            "guards": N2.guard_forms(fnode), "ifs_noelse": N2.noelse_texts(fnode), "ifexps": N2.ifexp_texts(fnode),
+            "scopes_all": sorted({canon(n) for n in ast.walk(fnode) if isinstance(n, _COMPS)})}
 
 
 def functions_of(tree):
@@ -280,8 +281,8 @@ def normalise_function(fnode, ref: dict, parts=("locals", "eqs", "ifs")) -> int:
     # ---- 1. locals ------------------------------------------------------------------------
     cur = local_names(fnode) if "locals" in parts else []
     refl = ref.get("locals", [])
-    unknown = [x for x in cur if x not in refl]
-    missing = [x for x in refl if x not in cur]
+    unknown = [x for x in cur if x not in refl and x != "_"]
+    missing = [x for x in refl if x not in cur and x != "_"]
     if unknown and missing:
         used = all_names(fnode)
         mapping = {}
@@ -437,7 +438,7 @@ def normalise_module(tree, module_name: str) -> int:
         if r:
             if "guards" in r:
                 n += normalise_function(fn, r, parts=("eqs", "ifs"))
-                for step in (N2.merge_branch_assignments, N2.inline_new_locals, N2.inline_new_locals, N2.ifexp_tests, N2.split_ifexp_statements, N2.unguard, N2.guardify):
+                for step in (N2.merge_branch_assignments, N2.inline_new_locals, N2.inline_new_locals, N2._ifexp_calls, N2.ifexp_tests, N2.split_ifexp_statements, N2.expand_new_comprehensions, N2.contract_known_loops, N2.unguard, N2.guardify):
                     try:
                         n += step(fn, r)
                     except Exception:   # pragma: no cover
